@@ -221,6 +221,11 @@ class Effects:
             cur = ev.data[0]
             if self.is_scalar(cur):
                 return out
+            def fresh(t):
+                return t[0] in ("list", "dict", "set", "comp") or (t[0] == "call" and callee(t) in ("builtins.list", "builtins.dict", "builtins.set")) \
+                    or (t[0] == "binop" and t[1] == "+" and fresh(t[2]))
+            if fresh(cur):
+                return out            # `columns = [...]; columns += more` grows a container built here: its elements are not written
             for a in self.aliases(cur):
                 out.append((a, "augmented assignment %s= on %s" % (ev.data[1], show(cur)[:60])))
         elif ev.kind == "call":
